@@ -52,15 +52,17 @@ Ltac unit_axis ax ay az Hpos :=
   set (ux := ax / n) in *; set (uy := ay / n) in *; set (uz := az / n) in *;
   clearbody ux uy uz; clear Hn.
 
+(* innermost square roots first: those whose radicand contains no other square root *)
+Ltac no_sqrt e := lazymatch e with context [sqrt _] => fail | _ => idtac end.
 Ltac sqrt_is_1 :=
   repeat (match goal with
-  | |- context [sqrt ?e] => let H := fresh in assert (H : e = 1) by (unfold Rdiv; rewrite ?Rinv_1, ?Rmult_1_r; hring); rewrite H; clear H; rewrite sqrt_1
+  | |- context [sqrt ?e] => no_sqrt e; let H := fresh in assert (H : e = 1) by hring; rewrite H; clear H; rewrite sqrt_1
   end; unfold Rdiv; rewrite ?Rinv_1, ?Rmult_1_r).
 
 (* sqrt ((s*ux)² + (s*uy)² + (s*uz)²) = s for 0 <= s and a unit u *)
 Ltac sqrt_is s :=
   match goal with
-  | |- context [sqrt ?e] => let H := fresh in assert (H : e = s * s) by hring; rewrite H; clear H;
+  | |- context [sqrt ?e] => no_sqrt e; let H := fresh in assert (H : e = s * s) by hring; rewrite H; clear H;
                             rewrite sqrt_sq_abs, Rabs_right by lra
   end.
 
